@@ -84,7 +84,7 @@ def landing_scenarios(quick):
             s = {'kind': kind, 'worker_cls': 'State', 'target': 't_ret_now', 'init_state': init, 'targs': {'m': 2, 'ending': 'return'},
                  'read_state_while_paused': True}
             if len(kind) == 2:
-                s.update(inputs=[], close=False)
+                s.update(inputs=[], close=True, reach_timeout=2.5)
                 s['enqueue_empty'] = 1
             out.append(s)
     return out
